@@ -439,6 +439,13 @@ func (t *Tracer) resolve(fr *frame, p *pstate, v ssa.Value) ssa.Value {
 				v = a[x.Index]
 				continue
 			}
+		case *ssa.ChangeInterface:
+			// an interface conversion of something the path knows better (the result of a spliced helper handed on as a
+			// wider interface): the converted value itself
+			if in := t.resolve(fr, p, x.X); in != x.X {
+				v = in
+				continue
+			}
 		}
 		break
 	}
@@ -623,6 +630,13 @@ func (t *Tracer) walk(fr *frame, b *ssa.BasicBlock, i int, p *pstate, k func(*ps
 				if f := FieldOf(fa); f != nil {
 					t.emit(p, fr, Event{Kind: "setfield", Name: FieldName(f), Instr: x, Args: []ssa.Value{t.resolve(fr, p, x.Val)}})
 				}
+			} else if fa, ok := x.Addr.(*ssa.FieldAddr); ok {
+				// a field of an object the session holds: s.LogonSettings.HeartBtInt = …
+				if outer, base := LoadedField(fa.X); outer != nil && base != nil && t.M.isSessionVal(base) {
+					if f := FieldOf(fa); f != nil {
+						t.emit(p, fr, Event{Kind: "setfield", Name: FieldName(outer) + "." + FieldName(f), Instr: x, Args: []ssa.Value{t.resolve(fr, p, x.Val)}})
+					}
+				}
 			}
 		case *ssa.UnOp:
 			if f, _ := LoadedField(x); f == t.M.StateField {
@@ -745,11 +759,11 @@ func (t *Tracer) refine(fr *frame, cond ssa.Value, val bool, p *pstate) bool {
 			return t.refine(fr, c.X, !val, p)
 		}
 		if call := structResultOf(c); call != nil {
-			t.setOutcome(p, call, fmt.Sprint(val))
+			return t.setOutcome(p, call, fmt.Sprint(val))
 		}
 	case *ssa.Field:
 		if call := structResultOf(c); call != nil {
-			t.setOutcome(p, call, fmt.Sprint(val))
+			return t.setOutcome(p, call, fmt.Sprint(val))
 		}
 	case *ssa.Phi:
 		// short-circuit && / || : cannot interpret in general
@@ -769,8 +783,7 @@ func (t *Tracer) refine(fr *frame, cond ssa.Value, val bool, p *pstate) bool {
 		}
 		// error/nil tests on event results
 		if IsNilConst(y) {
-			t.setOutcome(p, x, map[bool]string{true: "ok", false: "fail"}[eq])
-			return true
+			return t.setOutcome(p, x, map[bool]string{true: "ok", false: "fail"}[eq])
 		}
 		if cv, ok := ConstInt(y); ok {
 			if t.isStateRead(x) {
@@ -800,9 +813,9 @@ func (t *Tracer) refine(fr *frame, cond ssa.Value, val bool, p *pstate) bool {
 				return t.refineRead(fr, c, kind, val, val, c.Pos(), p)
 			}
 		}
-		t.setOutcome(p, c, fmt.Sprint(val))
+		return t.setOutcome(p, c, fmt.Sprint(val))
 	case *ssa.Extract:
-		t.setOutcomeExtract(p, c, fmt.Sprint(val))
+		return t.setOutcomeExtract(p, c, fmt.Sprint(val))
 	}
 	return true
 }
@@ -881,24 +894,35 @@ func structResultOf(v ssa.Value) *ssa.Call {
 	return call
 }
 
-func (t *Tracer) setOutcome(p *pstate, v ssa.Value, outcome string) {
+// opposite: the two outcomes of one test.
+func opposite(a, b string) bool {
+	return a == "ok" && b == "fail" || a == "fail" && b == "ok" || a == "true" && b == "false" || a == "false" && b == "true"
+}
+
+// setOutcome records how the test of an event's result came out on this path. It returns false when the path has already
+// decided the same test the other way (a helper tested the error and the caller tests the value it returned again): such a
+// path is not feasible.
+func (t *Tracer) setOutcome(p *pstate, v ssa.Value, outcome string) bool {
 	if call := structResultOf(v); call != nil {
 		v = call
 	}
 	// v may be the call result itself or an extract of a tuple call
 	if ex, ok := v.(*ssa.Extract); ok {
-		t.setOutcomeExtract(p, ex, outcome)
-		return
+		return t.setOutcomeExtract(p, ex, outcome)
 	}
 	for i := len(p.events) - 1; i >= 0; i-- {
 		if p.events[i].Val != nil && p.events[i].Val == v {
+			if opposite(p.events[i].Outcome, outcome) {
+				return false
+			}
 			p.events[i].Outcome = outcome
-			return
+			return true
 		}
 	}
+	return true
 }
 
-func (t *Tracer) setOutcomeExtract(p *pstate, ex *ssa.Extract, outcome string) {
+func (t *Tracer) setOutcomeExtract(p *pstate, ex *ssa.Extract, outcome string) bool {
 	for i := len(p.events) - 1; i >= 0; i-- {
 		if p.events[i].Val != nil && p.events[i].Val == ex.Tuple {
 			// for (value, err) tuples the error is the last component; for (ok, ...) the first
@@ -906,12 +930,16 @@ func (t *Tracer) setOutcomeExtract(p *pstate, ex *ssa.Extract, outcome string) {
 			if tup != nil {
 				ct := tup.At(ex.Index).Type()
 				if types.Identical(ct, types.Universe.Lookup("error").Type()) || isBool(ct) {
+					if opposite(p.events[i].Outcome, outcome) {
+						return false
+					}
 					p.events[i].Outcome = outcome
 				}
 			}
-			return
+			return true
 		}
 	}
+	return true
 }
 
 func isBool(t types.Type) bool {
@@ -1029,6 +1057,7 @@ func (t *Tracer) callCommon(fr *frame, in ssa.Instruction, cc *ssa.CallCommon, v
 	if _, ok := m.StateReaders[fn]; ok {
 		if val != nil {
 			p.reads[val] = readInfo{set: p.st, epoch: p.epoch}
+			ev(Event{Kind: "stateread", Name: NameOf(fn)})
 		}
 		return false // interpreted at the branch that tests its result
 	}
@@ -1093,6 +1122,11 @@ func (t *Tracer) callCommon(fr *frame, in ssa.Instruction, cc *ssa.CallCommon, v
 		}
 		ev(Event{Kind: "enter", Name: NameOf(fn)})
 		nf := &frame{fn: fn, visited: map[*ssa.BasicBlock]bool{}, depth: fr.depth + 1, up: fr, sub: map[ssa.Value]ssa.Value{}, phis: map[*ssa.Phi]ssa.Value{}}
+		// the bindings of the frames above stay visible: an argument may be an expression of the caller whose operands are the
+		// caller's own parameters (rendering reads through all of them)
+		for k, v := range fr.sub {
+			nf.sub[k] = v
+		}
 		for i, prm := range fn.Params {
 			if i < len(cc.Args) {
 				nf.sub[prm] = rarg(i)
